@@ -376,15 +376,46 @@ func genEvalErrorProfile(t *rapid.T) string {
 		"  w:\n    targetClass: ex.Test\n    propertyConstraints:\n      ex.p1:\n        maxCount: 5\nrego_extensions: |\n  " + strings.ReplaceAll(pick(t, evalErrorExtensions, "evalError"), "\n", "\n  ") + "\n"
 }
 
+// prefix games: namespaces that look like compact IRIs of other prefixes (chains, cycles, a prefix naming itself),
+// built-in names among them. A namespace is text; nothing obliges the translator to resolve it further, but if it
+// does it has to come back.
+func genPrefixGameProfile(t *rapid.T) string {
+	names := []string{"ex", "base", "core", "shapes", "q"}
+	k := rapid.IntRange(1, 4).Draw(t, "prefixCount")
+	var sb strings.Builder
+	sb.WriteString("profile: prefix games\nprefixes:\n")
+	for i := 0; i < k; i++ {
+		var ns string
+		switch rapid.IntRange(0, 4).Draw(t, "nsKind") {
+		case 0:
+			ns = "http://ex.org/" + names[i] + "#"
+		case 1: // points at the next prefix (the last one closes the cycle)
+			ns = names[(i+1)%k] + ".ns/"
+		case 2: // points at itself
+			ns = names[i] + ".self/"
+		case 3: // points at a built-in prefix or at an undeclared name
+			ns = pick(t, []string{"apiContract.x/", "doc.y#", "nowhere.z/", "shacl."}, "nsTarget")
+		default:
+			ns = names[rapid.IntRange(0, k-1).Draw(t, "nsRef")] + "." + pick(t, []string{"a/", "b#", ""}, "nsLocal")
+		}
+		sb.WriteString("  " + names[i] + ": " + ns + "\n")
+	}
+	sb.WriteString("violation:\n- v\nvalidations:\n  v:\n    targetClass: " + names[0] + ".Test\n    propertyConstraints:\n      " + names[k-1] + ".p0:\n        minCount: 1\n")
+	return sb.String()
+}
+
 func genC17(t *rapid.T) c17Case {
 	loadFixtures()
 	c := c17Case{Entry: pick(t, c17Entries, "entry"), Debug: rapid.IntRange(0, 3).Draw(t, "debug") == 0}
 	// profile (half of the cases keep the profile valid so that mutated data reaches indexing and evaluation)
-	pk := rapid.IntRange(0, 11).Draw(t, "pkind")
+	pk := rapid.IntRange(0, 12).Draw(t, "pkind")
 	if rapid.Bool().Draw(t, "keepProfile") {
 		pk = 3
 	}
 	switch pk {
+	case 12:
+		c.Profile = genPrefixGameProfile(t)
+		c.Ops = append(c.Ops, "p:prefix-games")
 	case 11:
 		c.Profile = genEvalErrorProfile(t)
 		c.Ops = append(c.Ops, "p:evaluation-fails")
